@@ -107,14 +107,17 @@ def assign_registers(data: CodeData, code: list[IC10Instruction]):
     mapping = {}
 
     for scope in sorted_scopes:
-        if not scope in data.symbols:
-            continue
         available_registers = set(registers)
         parent_registers = set()
         for calling_scope in called_from.get(scope, set()):
             parent_registers = parent_registers.union(
                 blocked_registers_by_scope.get(calling_scope, set())
             )
+        if not scope in data.symbols:
+            # a scope without variables of its own still passes its callers'
+            # registers on to the scopes it calls
+            blocked_registers_by_scope[scope] = parent_registers
+            continue
         available_registers = list(sorted(set(registers) - parent_registers))
         used_registers = set()
         blocked_registers = set()
